@@ -13,6 +13,10 @@ from . import net as N
 from . import proto as P
 from .mmx import nth_permutation, PORT
 
+import socket as _socket
+
+WAITALL = _socket.MSG_WAITALL
+
 
 class SConn:
     def __init__(self, sock: N.VSock, uid: int):
@@ -136,7 +140,7 @@ class SpecHub:
             if not c.registered:
                 continue
             try:
-                hb = c.sock.recv(self.hs.size)
+                hb = c.sock.recv(self.hs.size, WAITALL)
                 if len(hb) != self.hs.size:
                     self.remove(c)
                     continue
@@ -148,7 +152,7 @@ class SpecHub:
                         self.unspecified.append("hostile length")
                         self.remove(c)
                         continue
-                    payload = c.sock.recv(n)
+                    payload = c.sock.recv(n, WAITALL)
                     if len(payload) != n:
                         self.remove(c)
                         continue
